@@ -45,13 +45,16 @@ CLAIMS = {
               "command with an -ej at time 0 is refused; fromMs_rejects_moves_at_zero_counterexample: '-es 0 i 1.0' IS accepted, and correctly so; fromMs_rejects_moves_at_zero_partial), "
               "and fromMs_sem2 / fromMs_sem2_plain hold on Tame2 (GoodGroup2: a population may be the source of a move after being the target of an earlier JOIN, and join chains a->b, "
               "b->c are allowed as long as nothing later moves out of c) — the shapes of F5, F21, F22, F6b stay outside, joinThenSplit / chainSameTime are inside; "
+              "A third, incomparable fragment: fromMs_sem3 / fromMs_sem3_plain on Tame3 (GoodGroup3: every source of a move existed before the group — an '-es i p -ej new j' pair counts as one "
+              "admixture move —, no population joined in the group is the target of a move of the group, 0 < p <= 1): it contains same-time PULSE CHAINS, which Tame' and Tame2 exclude; on the "
+              "enumerated 1 500 625 four-option commands it contains 32 520 commands both sides accept, none wrong (evaluated; tame3_sound_on_table kernel-checks the 600-command table). "
               "tame2_exact_on_table: on the finite table of all 600 commands '-I 3 1 1 1' + at most two -es/-ej options at one time, Tame2 holds exactly for the commands both sides accept "
               "and convert correctly (decide +kernel over the table: a finite quantifier). The full property is FALSE on the unchanged tree: fromMs_order_counterexample (F4), fromMs_split_of_new_population_counterexample (F5), "
               "fromMs_interleaved_pairs_counterexample (F21), fromMs_join_chain_counterexample (F22), fromMs_split_p0_counterexample (F6b) are proved on the concrete commands (known "
               "findings), all outside Tame'. Model tied to from_ms by exact comparison of accept/reject and the resolved graph on thousands of commands per run (all orders of same-time "
               "options, off/on migration with an identical rate; exhaustive small scope in the thorough tier); Spec.MsSem.msSem(command) is compared with the real graph's semantics on "
               "every accepted command."),
-        note=NOTE_COMMON + " PARTIAL where the property is false (known findings F4, F5, F6b, F21, F22: commands outside Tame2) and for GoodGroup2 being sufficient, not exact, beyond two same-time options. Reading of -eM/-ema after a join per DESIGN §9."),
+        note=NOTE_COMMON + " PARTIAL where the property is false (known findings F4, F5, F6b, F21, F22, family F24: commands outside Tame2 and Tame3) and for the fragments being sufficient, not exact, beyond two same-time options. Reading of -eM/-ema after a join per DESIGN §9."),
     "C09": dict(
         category="proof", design_ref="§7 C09",
         technique="Lean 4 theorems over a hand-written model of ms.py's option records, printer and argparse layer (print/parse round trip for every option kind relative to an explicit number-codec hypothesis); composed round-trip refinement theorems ms_roundtrip_sem_all / ms_roundtrip_growth_sem_all / ms_roundtrip_names (C07's to_ms refinement + C08's from_ms refinement, bridged between the two interpreters; acceptance by from_ms proved; exponential epochs exact relative to the printed rates, with a real-analysis error bound) + differential correspondence and semantic round-trip comparison through an independent ms interpreter",
@@ -75,6 +78,9 @@ CLAIMS = {
               "ms_roundtrip_names_order_partial; placeholder names like deme2 in the original graph are harmless), the counterexamples showing each hypothesis is needed "
               "(ms_roundtrip_acceptance_counterexample = ms_roundtrip_pulse1_counterexample: known finding F6; toMs_tame_needs_pulse_order, toMs_tame_needs_pulse_below_one), "
               "ms_roundtrip_accepts_order_not_necessary (the pulse-order clause of PulsesTame comes from the method: a chain A->B, B->C at one time is accepted), "
+              "ms_roundtrip_sem_all3 / ms_roundtrip_growth_sem_all3 / ms_roundtrip_names3 (C08's third fragment Tame3 contains every to_ms output whose pulse proportions are below 1 — "
+              "toMs_output_tame3 — and acceptance is re-proved for that class — ms_roundtrip_accepts3 —, so the round-trip theorems hold with PulsesTame replaced by PulsesBelowOne: the ONLY "
+              "condition left on the pulses is 'no pulse of proportion 1', which is the known finding F6; ms_roundtrip_chains_inside_tame3: same-time pulse chains are covered), "
               "toMs_output_tame2 (on to_ms output the wider fragment Tame2 of C08 coincides with Tame', and both hold iff PulsesTame: the clause cannot be dropped that way), "
               "ms_roundtrip_sizes_migs / ms_roundtrip_growth_sizes_migs (with NO condition on the pulses, given acceptance: populations, lifetimes, sizes at every time and migration rates "
               "of the returned graph are right; only its lineage movements are not covered), "
@@ -87,7 +93,7 @@ CLAIMS = {
               "epoch older than an exponential one inherits size*exp(-a'*dt): 300.0000000245671 on the real library; two rates printed alike merge two epochs) — within the "
               "property's precision clause. Float rounding of the printed rate itself stays an explicit eps. Also checked by the differential — Model of to_ms/from_ms = code exactly "
               "(0 disagreements on thousands of graphs per run) and the independent interpreter Spec.MsSem agrees with the graph's demography on every round trip."),
-        note=NOTE_COMMON + " PARTIAL: for pulses outside PulsesTame (F6 and same-time pulse chains) the semantic round trip rests on correspondence + the Spec interpreter, not on a theorem. Number printing (str(float), format '.10f') is an explicit hypothesis; sizes/growth from math.exp/log are carried symbolically and compared at 1e-9."),
+        note=NOTE_COMMON + " PARTIAL only where the property is false: for a pulse of proportion 1 (known finding F6) the semantic round trip rests on correspondence + the Spec interpreter, not on a theorem. Number printing (str(float), format '.10f') is an explicit hypothesis; sizes/growth from math.exp/log are carried symbolically and compared at 1e-9."),
     "C04": dict(
         category="proof", design_ref="§7 C04",
         technique="Lean 4 composition theorems for the dump/load pipelines relative to explicit codec laws (hypotheses, tested on the installed ruamel.yaml/json) built on resolve_asdict, simplify_resolves and the C16 lemmas + end-to-end round-trip testing on the real text layer",
